@@ -238,12 +238,17 @@ struct Case {
     /// abstract program in the model's wire syntax, when the case was generated from one
     program: Option<String>,
     autoescape: bool,
+    /// `set_fallback_prefixes` configuration (empty = none)
+    prefixes: Vec<String>,
     features: Vec<&'static str>,
 }
 
 impl Case {
     fn tera(&self) -> Result<Tera, String> {
         let mut t = Tera::default();
+        if !self.prefixes.is_empty() {
+            t.set_fallback_prefixes(self.prefixes.clone()).map_err(|e| format!("set_fallback_prefixes: {e}"))?;
+        }
         match catch(AssertUnwindSafe(|| t.add_raw_templates(self.templates.clone()))) {
             Ok(Ok(())) => Ok(t),
             Ok(Err(e)) => Err(format!("add error: {e}")),
@@ -263,6 +268,7 @@ impl Case {
             "ctx": self.ctx.iter().map(|(k, v)| (k.clone(), tera_verif_harness::wire::encode(v))).collect::<BTreeMap<_, _>>(),
             "program": self.program,
             "autoescape": self.autoescape,
+            "fallback_prefixes": self.prefixes,
         })
     }
     fn from_json(j: &serde_json::Value) -> Option<Case> {
@@ -271,7 +277,7 @@ impl Case {
         for (k, v) in j["ctx"].as_object()? {
             ctx.insert(k.clone(), tera_verif_harness::wire::decode(v.as_str()?)?);
         }
-        Some(Case { templates, ctx, program: j["program"].as_str().map(|s| s.to_string()), autoescape: j["autoescape"].as_bool().unwrap_or(false), features: vec![] })
+        Some(Case { templates, ctx, program: j["program"].as_str().map(|s| s.to_string()), autoescape: j["autoescape"].as_bool().unwrap_or(false), prefixes: j["fallback_prefixes"].as_array().map(|a| a.iter().filter_map(|x| x.as_str().map(|s| s.to_string())).collect()).unwrap_or_default(), features: vec![] })
     }
 }
 
@@ -594,6 +600,14 @@ fn wire_ops(ops: &[Op], parent: Option<&Vec<Op>>, out: &mut Vec<String>) {
     }
 }
 
+/// how a generated program is printed: autoescaping (template suffix) and whether every template
+/// lives under a directory that is only reachable through `set_fallback_prefixes`
+#[derive(Clone, Copy)]
+struct Cfg {
+    ae: bool,
+    prefix: &'static str,
+}
+
 struct GenCase {
     case: Case,
     entries: Vec<Entry>,
@@ -601,7 +615,8 @@ struct GenCase {
     ops: Vec<Op>,
 }
 
-fn build_case(ops: &[Op], autoescape: bool) -> GenCase {
+fn build_case(ops: &[Op], cfg: Cfg) -> GenCase {
+    let autoescape = cfg.ae;
     let ext = if autoescape { ".html" } else { ".txt" };
     let mut em = Emit { ext: ext.into(), ..Default::default() };
     let root = em.ops(ops);
@@ -622,6 +637,14 @@ fn build_case(ops: &[Op], autoescape: bool) -> GenCase {
     if !em.comps.is_empty() {
         templates.push((format!("comps{ext}"), em.comps.join("\n")));
     }
+    let str_source = templates[0].1.clone();
+    // registered under the prefix; every reference (entry points, extends, include) keeps the
+    // short name and resolves only through the fallback prefix
+    if !cfg.prefix.is_empty() {
+        for t in templates.iter_mut() {
+            t.0 = format!("{}{}", cfg.prefix, t.0);
+        }
+    }
     let mut vars = BTreeMap::new();
     collect_vars(ops, &mut vars);
     let ctx: BTreeMap<String, Value> = vars.iter().map(|(k, v)| (k.clone(), Value::from(v.as_str()))).collect();
@@ -635,12 +658,16 @@ fn build_case(ops: &[Op], autoescape: bool) -> GenCase {
         entries.push(Entry::Component { name: name.clone(), body: has_body.then(|| "<i>body</i>".to_string()), autoescape });
     }
     if em.block_names.is_empty() {
-        entries.push(Entry::Str { source: templates[0].1.clone(), autoescape });
+        entries.push(Entry::Str { source: str_source, autoescape });
     }
     let mut features: Vec<&'static str> = em.features.into_iter().collect();
     features.push(if autoescape { "autoescape_on" } else { "autoescape_off" });
+    if !cfg.prefix.is_empty() {
+        features.push("fallback_prefix");
+    }
+    let prefixes: Vec<String> = if cfg.prefix.is_empty() { vec![] } else { vec!["unused/".to_string(), cfg.prefix.to_string()] };
     GenCase {
-        case: Case { templates, ctx, program: Some(w.join(" ")), autoescape, features },
+        case: Case { templates, ctx, program: Some(w.join(" ")), autoescape, prefixes, features },
         entries,
         ops: ops.to_vec(),
     }
@@ -656,6 +683,7 @@ fn fixed_cases() -> Vec<(Case, Vec<Entry>)> {
                 ctx: ctx.into_iter().map(|(k, v)| (k.to_string(), v)).collect(),
                 program: None,
                 autoescape: tpls[0].0.ends_with(".html"),
+                prefixes: if tpls.iter().any(|(n, _)| n.starts_with("themes/cool/")) { vec!["themes/missing/".to_string(), "themes/cool/".to_string()] } else { vec![] },
                 features: feats,
             },
             entries,
@@ -698,6 +726,71 @@ fn fixed_cases() -> Vec<(Case, Vec<Entry>)> {
         vec![("outer", Value::from(m.clone()))],
         vec![t("maps.html")],
         vec!["maps_built_at_render_time", "keys_values_pairs"],
+    );
+    // purity: maps BUILT DURING THE RENDER from non-constant values, 8+ entries with distinct
+    // values, observed in every order-revealing way (a per-instance hasher state would show up
+    // as a different order on the next render / another thread)
+    {
+        let lits: Vec<String> = (0..12).map(|i| format!("\"k{i}\": x{i}")).collect();
+        let mlit = format!("{{{}}}", lits.join(", "));
+        let tpl = format!(
+            "{{% set m = {mlit} %}}{{% for k, v in m %}}{{{{ k }}}}={{{{ v }}}};{{% endfor %}}|{{{{ m | keys }}}}|{{{{ m | values }}}}|{{{{ m | pairs }}}}|{{{{ m }}}}|\
+             {{% for v in m | values %}}{{{{ v }}}},{{% endfor %}}|{{% for p in m | pairs %}}{{{{ p[0] }}}}{{{{ p[1] }}}}{{% endfor %}}|\
+             {{% set m2 = {{...outer, \"zz\": x0, ...m, \"aa\": x1}} %}}{{{{ m2 | values }}}}|{{{{ m2 | keys }}}}|{{% for k, v in m2 %}}{{{{ k }}}}{{% endfor %}}|{{{{ m2 }}}}|\
+             {{% set g = items | group_by(attribute=\"g\") %}}{{{{ g }}}}|{{{{ g | keys }}}}|{{{{ g | values }}}}|{{% for k, v in g %}}{{{{ k }}}}:{{{{ v | length }}}};{{% endfor %}}|\
+             {{{{ [m, m2] }}}}|{{{{ __tera_context }}}}"
+        );
+        let tpl: &'static str = Box::leak(tpl.into_boxed_str());
+        let mut ctx: Vec<(&str, Value)> = Vec::new();
+        for i in 0..12 {
+            let name: &'static str = Box::leak(format!("x{i}").into_boxed_str());
+            ctx.push((name, Value::from(format!("<v{i}>"))));
+        }
+        let mut outer = tera::Map::new();
+        for i in 0..9 {
+            outer.insert(format!("o{i}").into(), Value::from(i as i64 * 7));
+        }
+        ctx.push(("outer", Value::from(outer)));
+        let items: Vec<Value> = (0..40)
+            .map(|i| {
+                let mut e = tera::Map::new();
+                e.insert("g".into(), Value::from(format!("group{}", i % 11)));
+                e.insert("n".into(), Value::from(i as i64));
+                Value::from(e)
+            })
+            .collect();
+        ctx.push(("items", Value::from(items)));
+        add(
+            &[("purity.html", tpl), ("purity.txt", tpl)],
+            ctx,
+            vec![t("purity.html"), t("purity.txt"), Entry::Str { source: tpl.to_string(), autoescape: false }],
+            vec!["maps_built_at_render_time_12_entries", "spread_maps", "group_by_result"],
+        );
+    }
+    // names that resolve only through `set_fallback_prefixes`: every channel pair must agree
+    add(
+        &[
+            ("themes/cool/page.html", "{% extends \"base.html\" %}{% block b %}P[{{ super() }}]{% include \"part.html\" %}{{<chip label={v} />}}{% endblock %}"),
+            ("themes/cool/base.html", "cool-base<{% block b %}cb{% endblock %}>{{ v }}"),
+            ("themes/cool/part.html", "<part {{ v }}>"),
+            ("themes/cool/ui.html", "{% component chip(label) %}({{ label }}{{ body }}){% endcomponent chip %}"),
+            ("exact.html", "{% extends \"base.html\" %}{% block b %}E{{ super() }}{% endblock %}"),
+        ],
+        vec![("v", Value::from("<v&>"))],
+        vec![
+            t("page.html"),
+            t("themes/cool/page.html"),
+            t("base.html"),
+            t("part.html"),
+            t("exact.html"),
+            t("cool/page.html"),
+            Entry::Block("page.html".into(), "b".into()),
+            Entry::Block("base.html".into(), "b".into()),
+            Entry::Block("exact.html".into(), "b".into()),
+            Entry::Component { name: "chip".into(), body: Some("B".into()), autoescape: true },
+            Entry::Str { source: "{% include \"part.html\" %}{{<chip label=\"x\" />}}".into(), autoescape: true },
+        ],
+        vec!["fallback_prefix_fixed"],
     );
     // inheritance three levels, nested blocks, super() chains, blocks inside captures and loops
     add(
@@ -911,7 +1004,14 @@ fn check_entry(tera: &Tera, entry: &Entry, ctx: &Context, stats: &mut Stats, rng
     }
     if let Ok(Ok(text)) = &s {
         if text.as_bytes() != refr.full.as_slice() {
-            return (refr.clone_ref(), Some(Failure { what: "String variant returned other bytes than the writer variant wrote".into(), policy: None }));
+            // is it the channel, or is the render itself not repeatable?
+            let again = reference(tera, entry, ctx);
+            let what = if again.full != refr.full {
+                "two renders of the same template and context give different bytes (rendering is not repeatable)"
+            } else {
+                "String variant returned other bytes than the writer variant wrote"
+            };
+            return (refr.clone_ref(), Some(Failure { what: what.into(), policy: None }));
         }
     }
     // `Tera::one_off` = `render_str` on a default instance: same bytes when the source needs
@@ -1093,7 +1193,7 @@ fn deletions(ops: &[Op]) -> Vec<Vec<Op>> {
     out
 }
 
-fn shrink(ops: Vec<Op>, autoescape: bool, fails: &dyn Fn(&GenCase) -> bool) -> Vec<Op> {
+fn shrink(ops: Vec<Op>, autoescape: Cfg, fails: &dyn Fn(&GenCase) -> bool) -> Vec<Op> {
     let mut cur = ops;
     let mut budget = 400;
     'outer: loop {
@@ -1265,9 +1365,9 @@ fn main() {
     struct Out {
         stats: Stats,
         distinct: BTreeSet<(String, Vec<u8>, usize)>,
-        fails: Vec<(Vec<Op>, bool, Entry, Failure)>,
+        fails: Vec<(Vec<Op>, Cfg, Entry, Failure)>,
         reqs: Vec<ModelReq>,
-        cases: Vec<(usize, Vec<Op>, bool)>,
+        cases: Vec<(usize, Vec<Op>, Cfg)>,
         samples: Vec<serde_json::Value>,
         rejected: Vec<(String, serde_json::Value)>,
     }
@@ -1286,6 +1386,8 @@ fn main() {
                         let allow_fail = r.chance(1, 8);
                         let mut g = Gen { rng: &mut r, counter: 0, allow_fail };
                         let ops = g.ops(Flags { depth: 0, blocks_ok: true, nested_parent_ok: true, super_ok: false, body_ok: false, ascii: false }, 6);
+                        let cfg = Cfg { ae: autoescape, prefix: if idx % 3 == 2 { "themes/cool/" } else { "" } };
+                        let autoescape = cfg;
                         let gc = build_case(&ops, autoescape);
                         let tera = match gc.case.tera() {
                             Ok(t) => t,
@@ -1330,7 +1432,7 @@ fn main() {
         hs.into_iter().map(|h| h.join().unwrap()).collect()
     });
     let mut reqs: Vec<ModelReq> = Vec::new();
-    let mut gen_cases: BTreeMap<usize, (Vec<Op>, bool)> = BTreeMap::new();
+    let mut gen_cases: BTreeMap<usize, (Vec<Op>, Cfg)> = BTreeMap::new();
     let mut gen_fails = Vec::new();
     let mut rejected = Vec::new();
     for o in outs {
